@@ -76,7 +76,7 @@ def parseSlots? (ts : List String) : Option (List SlotSpec) := ts.mapM parseSlot
 
 def parseOp? : List String → Option Op
   | "chain" :: n :: slots => (parseSlots? slots).map (Op.chain n)
-  | ["add", n, slot] => (parseSlot? slot).map (Op.add n)
+  | ["add", n, slot] => if n == "*" then none else (parseSlot? slot).map (Op.add n)
   | ["entry", e, n] => some (.entry e n)
   | ["whenexit", e, id, b] =>
     match id.toNat?, parseHook? b with
@@ -159,8 +159,14 @@ def stepSpec (st : SState) (ts : List String) (_ : String) : SState × Option St
     let (s, o) := sstep st op
     (s, (showOut {} o).2)
 
+/-- chain `*` is api's global chain: `entry <e> *` is `api.Entry` **without** `WithSlotChain`.  The harness registers one
+    recording slot of each kind (id 0) on the real global chain at start; the built-in slots are silent and, with no rules
+    loaded, pass.  Both sides therefore start every case with this chain already defined (an ordinary `chain` op). -/
+def globalChainOp : Op :=
+  .chain "*" [.p { id := 0, order := 0, beh := .ok }, .r { id := 0, order := 0, beh := .nil }, .s { id := 0, order := 0, beh := .ok }]
+
 def run (mode : String) : IO Unit :=
-  if mode == "spec" then loop ({} : SState) stepSpec
-  else loop (({}, {}) : State × Seen) stepModel
+  if mode == "spec" then loop (sstep ({} : SState) globalChainOp).1 stepSpec
+  else loop (((step ({} : State) globalChainOp).1, {}) : State × Seen) stepModel
 
 end Sentinel.Drv.C16
